@@ -189,6 +189,31 @@ fn main() {
             run_script(&[0x00, 0x81], &s, "boundary-offset", oo);
         }
     }
+    // byte-array blocks that end exactly at / just before / just after the end of the buffer, at bit 0 and after 1..7 bits
+    for l in [0usize, 1, 2, 3, 254, 255] {
+        for cut in 0..3usize {
+            let mut b = vec![1u8, l as u8];
+            b.extend((0..l).map(|i| (i as u8).wrapping_mul(3)));
+            match cut { 0 => {} 1 => { b.push(0); } _ => { b.push(2); b.extend([9u8, 9]); b.push(0); } }
+            for o in [Op::Bytes, Op::Utf8] {
+                run_script(&b, &[o.clone()], "boundary-block-end", oo);
+                run_script(&b, &[Op::Bits8(3), o.clone()], "boundary-block-end", oo);
+                run_decode(&b, &o, "boundary-block-end-decode", oo);
+            }
+        }
+    }
+    // words of exactly 9, 10, 11 groups with every interesting top group
+    for n in [8usize, 9, 10] {
+        for top in [0u8, 1, 2, 3, 0x7f] {
+            for fill in [0xffu8, 0x80] {
+                let mut b = vec![fill; n]; b.push(top);
+                for o in [Op::Word, Op::Integer, Op::Char] {
+                    run_script(&b, &[o.clone()], "boundary-word-top", oo);
+                    run_script(&b, &[Op::Bits8(5), o.clone()], "boundary-word-top", oo);
+                }
+            }
+        }
+    }
     for i in 0..args.n {
         let (bs, btag) = gen_bytes(&mut rng);
         if rng.chance(1, 5) {
